@@ -125,7 +125,7 @@ func genC13Goc(repo string, sb *strings.Builder) error {
 	if err != nil {
 		return err
 	}
-	_, shf, err := ParseFile(repo, "tsdb/shard.go")
+	_, shf, err := ParseFileRaw(repo, "tsdb/shard.go")
 	if err != nil {
 		return err
 	}
